@@ -115,21 +115,26 @@ Definition wfb (st : stack) (m : mt) (h : dh) (f : fields) : bool :=
   | _, _ => false
   end.
 
-(* dtlcp input with more than one supported group / signature algorithm (finding K6) *)
-Definition multi16 (st : stack) (m : mt) (bs : bytes) : bool :=
-  match st, m with
-  | SD, mCH => match canon_ch_body true false (body_of SD bs) with
-               | Some x => (1 <? len (ch_curves x)) || (1 <? len (ch_sigalgs x))
-               | None => false
-               end
-  | _, _ => false
+(* the supported groups / signature algorithms a dtlcp ClientHello carries on the wire, read
+   with the independent extension walker of CodecSpec.v: the 16-bit values of the last extension
+   of type t (a later extension of one type replaces an earlier one in dtlcp), none if absent.
+   Stated without the model's decoder. *)
+Definition wire16 (t : N) (bs : bytes) : option (list N) :=
+  match ch_ext_block true (body_of SD bs) with
+  | None => Some []
+  | Some blk =>
+      match rev (filter (fun e => fst e =? t) (ext_list (length blk) blk)) with
+      | [] => Some []
+      | (_, d) :: _ => match cut 2 d with Some (v, _) => rd_u16s v | None => None end
+      end
   end.
-(* canonical up to that: what tlcp would call canonical *)
-Definition canonical_but16 (st : stack) (m : mt) (bs : bytes) : bool :=
-  match st, m with
-  | SD, mCH => framed SD tClientHello bs &&
-               match canon_ch_body true false (body_of SD bs) with Some _ => true | None => false end
-  | _, _ => canonical st m bs
+Definition olist_eqb (a : option (list N)) (b : list N) : bool :=
+  match a with Some l => bytes_eqb l b | None => false end.
+Definition wire16_kept (bs : bytes) (f : fields) : bool :=
+  match f with
+  | FCH y => olist_eqb (wire16 extSupportedGroups bs) (ch_curves y) &&
+             olist_eqb (wire16 extSignatureAlgorithms bs) (ch_sigalgs y)
+  | _ => false
   end.
 
 (* codes: 1 round trip lost or changed a field; 2 canonical input re-encodes differently;
@@ -138,7 +143,8 @@ Definition canonical_but16 (st : stack) (m : mt) (bs : bytes) : bool :=
    6 accepted although the dtlcp fragment fields do not describe a whole message;
    7 a message the library emitted is rejected; 8 accepted input without ignored parts but in a
    form the library never emits re-encodes differently (K4);
-   9 dtlcp ClientHello: supported groups / signature algorithms reduced to the last value *)
+   9 dtlcp ClientHello: the decoded supported groups / signature algorithms differ from the
+   values on the wire (K6, fixed in fe30aba: must never fire) *)
 Definition spec_code (c : case) : N :=
   match c with
   | Dec st m captured input o h f re =>
@@ -149,10 +155,10 @@ Definition spec_code (c : case) : N :=
           if negb (outer_ok st input) then 5
           else if match st with SD => negb (frag_whole input) | ST => false end then 6
           else if negb (strict st m input) then 3
+          else if match st, m with SD, mCH => negb (wire16_kept input f) | _, _ => false end then 9
           else if obytes_eqb re (Some input) then 0
           else if negb (type_ok (mt_type m) input) then 0
           else if canonical st m input then 2
-          else if canonical_but16 st m input && multi16 st m input then 9
           else if no_ignored st m input then 8
           else 0
       end
@@ -171,7 +177,8 @@ Definition spec_code (c : case) : N :=
                         end in
           if negb hdr_ok then 1
           else match f, f2 with
-               | FCH x, FCH y => if negb (ch_eqb_but16 x y) then 1 else if ch_eqb16 x y then 0 else 9
+               | FCH x, FCH y => if negb (ch_eqb_but16 x y) then 1 else if ch_eqb16 x y then 0
+                                 else match st with SD => 9 | ST => 1 end
                | _, _ => if fields_eqb f f2 then 0 else 1
                end
       end
